@@ -46,10 +46,19 @@ def run_cascade(case, d, k, sched, real=False):
     from toasty.merge import cascade_images, averaging_merger
 
     fmt = case["format"]
+    if case.get("dir") == "dotted":
+        d = os.path.join(d, "m51.v2", "tiles")  # a directory name with a dot in it
+        os.makedirs(d)
     pio = PyramidIO(d, default_format=fmt)
     leaves = {tuple(s["pos"]): cc.leaf_array(case["mode"], s, fmt) for s in case["leaves"]}
     with toasty_call("populate"):
         cc.populate(pio, case, leaves)
+    pio_written = pio
+    if case.get("open") == "guessed":
+        # the pyramid is re-opened without naming a format, as `toasty cascade` does when --format is not given: the
+        # documented behaviour is to take the format of the files that are there
+        with toasty_call("cascade", "re-opening the pyramid without a default format"):
+            pio = PyramidIO(d)
     kw = {}
     if case.get("filter"):
         F = gens.filter_fn(case["filter"])
@@ -69,7 +78,7 @@ def run_cascade(case, d, k, sched, real=False):
             raise Violation("cascade", f"parallel cascade raised {type(res['exc']).__name__}: {res['exc']}; worker output: {w.stderr.getvalue()[-600:]}")
         if res["status"] != "returned":
             raise HarnessError("simulation inconclusive: " + str(res["status"]))
-    return pio, leaves, world
+    return pio_written, leaves, world
 
 
 def read_outputs(pio, case):
@@ -127,6 +136,10 @@ def classify(case, leaves):
     cls = [case["format"], case["mode"], f"depth{case['depth']}", f"k{case['k']}"]
     if case["format"] == "fits":
         cls.append("bottom-up")
+    if case.get("open") == "guessed":
+        cls.append("format-guessed-from-files")
+    if case.get("dir") == "dotted":
+        cls.append("dotted-directory-name")
     pos = set(leaves)
     nt = False
     for par in set(rp.parent(p) for p in pos):
